@@ -1,10 +1,9 @@
 (* Model/HistoryInst.v -- symbolic instance of Model/History.v: every abstract
    function returns a description of the values it was given, so running a
    history inside Coq yields, per evaluation, WHICH expression / preferences /
-   decoded stream (format, leading content pre-processed or not, text -- or
-   the immediate EOF of a decoder that believes it has finished) its output is
-   a function of, plus the global Type string an error message would show.
-   Used by checks/props/c18.py (correspondence) and by the refutation
+   decoded stream (format, leading content pre-processed or not, text) its
+   output is a function of, plus the operation type names an error message
+   could show.  Used by checks/props/c18.py (correspondence) and by the
    witnesses of Props/C18.v.  No proofs here. *)
 From YQ Require Import Base.Str Model.History.
 
@@ -13,7 +12,8 @@ Definition fmt_code (f : fmt) : N :=
 
 Definition i_dec_sem (f : fmt) (pre : bool) (d : N) : list N := [fmt_code f; if pre then 1 else 0; d].
 Definition i_sem (c pf : N) (docs : list N) : list N := c :: pf :: docs.
-Definition i_msg (c pf : N) (docs : list N) (types : list str) (ty : str) : str := ty.
+(* type names, separated by 32 *)
+Definition i_msg (c pf : N) (docs : list N) (types : list str) : str := concat (List.map (fun t => t ++ [32]) types).
 
 Fixpoint toks_of (tb : list (N * list etok)) (e : N) : list etok :=
   match tb with [] => [] | (k, v) :: r => if k =? e then v else toks_of r e end.
@@ -31,9 +31,9 @@ Definition i_step (tb : list (N * list etok)) (pt ft : list N) :=
 Definition i_run (tb : list (N * list etok)) (pt ft : list N) :=
   run (fun e : N => e) (i_pfails pt) i_perr i_pmsg (toks_of tb) i_dec_sem [] (i_fails ft) i_sem i_msg.
 
-(* per evaluation: expr, prefs, then the decoded-stream description (empty = EOF), 255, the Type string *)
-Definition run_history (fixinit : bool) (tb : list (N * list etok)) (pt ft : list N) (h : list (request N N)) : list (list N) :=
-  List.map (fun o : list N * str => fst o ++ 255 :: snd o) (snd (i_run tb pt ft fixinit (G0 0) h)).
+(* per evaluation: expr, prefs, then the decoded-stream description, 255, the type names *)
+Definition run_history (tb : list (N * list etok)) (pt ft : list N) (h : list (request N N)) : list (list N) :=
+  List.map (fun o : list N * str => fst o ++ 255 :: snd o) (snd (i_run tb pt ft (G0 0) h)).
 
 Definition sfx_ne : str := [95; 78; 79; 95; 69; 77; 80; 84; 89].       (* _NO_EMPTY *)
 Definition sfx_nu : str := [95; 78; 79; 95; 85; 78; 83; 69; 84].       (* _NO_UNSET *)
